@@ -15,8 +15,8 @@ From Coq Require Import List.
 From Coq Require Strings.String.
 Import ListNotations.
 Import Coq.Strings.String.StringSyntax.
-From GoCar Require Import Bytes Monitor GeneratedLockFacts RunConc.
-From GoCarProofs Require Import MonitorDRF MonitorLive MonitorInst MonitorExec MonitorFacts MonitorLin MonitorReduce.
+From GoCar Require Import Bytes Varint Cid Header Frame V2Header Index Store StoreSpec Deferred Monitor GeneratedLockFacts RunConc.
+From GoCarProofs Require Import CidFacts StoreInv MonitorDRF MonitorLive MonitorInst MonitorExec MonitorFacts MonitorLin MonitorReduce MonitorStore.
 Local Open Scope string_scope.
 
 (* the generated tables are those of the four types, and every path of every operation of every
@@ -132,26 +132,99 @@ Theorem C08_terminated_runs_are_runs_of_atomic_sections :
 Proof. exact terminated_runs_are_atomic. Qed.
 Print Assumptions C08_terminated_runs_are_runs_of_atomic_sections.
 
-(* Linearizability, stated over the atomic-section semantics: every call is an invocation, ONE atomic
-   step of the sequential specification (its critical section) and a response.  Every such execution
-   passes the linearizability check with the order of the critical sections as witness: that order
-   lists every call once, never puts a call after one that was invoked after it returned, and the
-   sequential specification replayed along it yields exactly the results the calls returned.
-   _partial: the chain from the Go code to this statement has these links --
-     (1) today's source obeys the lock discipline: C08_lock_discipline_holds (translator + vm_compute);
-     (2) discipline => sections are isolated (C08_critical_sections_are_isolated) and, for programs
-         with data, every micro-step execution is an execution of atomically executed sections
-         (C08_micro_steps_reduce_to_atomic_sections): PROVED for one RW mutex, sections not nested, no
-         goroutine creation.  NOT proved: the same reduction with the nested pair
-         DeferredCarWriter.lk -> StorageCar.mu (there every access happens under the exclusive outer
-         lock, so the one-mutex theorem applies to lk with the inner lock ignored -- an argument, not a
-         theorem), with goroutine creation inside a section (ReadWrite.AllKeysChan after the repair
-         starts a goroutine that touches no shared field: its table entry contains only Blk), and
-         with lock hand-off (ReadOnly.AllKeysChan; ReadOnly alone is not one of the property's objects);
-     (3) the atomic step of each critical section is spec_step: NOT proved -- that is the sequential
-         behaviour of the code (C04's store model); here it is sampled by the differential runs: every
-         observed history must pass lin_check, which replays spec_step;
-     (4) atomic sections => linearizable: this theorem. *)
+(* Linearizability against the map specification of C04.  [impl_step hdrdec f] is StoreSpec's dispatcher
+   onto the functions of Store.v that model blockstore.ReadWrite (f = FBs) and storage.StorageCar;
+   [StoreSpec.spec_step] is the reference append-only content-addressed map; C04_refines_map proves that
+   they return the same results on every sequential history.  Here: an execution in which every call's
+   critical section is ONE application of impl_step (atomic-section semantics: invocation, the section,
+   response; otherwise arbitrary interleaving of any number of calls) returns exactly the results the MAP
+   returns when the calls are run one after the other in an order w that contains every call once and
+   never puts a call after one that was invoked after it returned.  Hypotheses: those of C04_refines_map
+   (no 64-bit wrap-around, header oracle inverts the encoder, well-formed CIDs and sections within the
+   limits for what is put, no write faults). *)
+Theorem C08_store_sections_linearizable_wrt_map_spec :
+  forall (hdrdec : bytes -> option (list bytes * N)) (k : skind) (o : wopts) (nilroots : bool)
+         (roots : list bytes) (s0 : wstate) (f : front) (ops : list sop) (tr : list ev),
+    51 + w_dpad o + w_ipad o < two64 ->
+    hdrdec (enc_header (roots_opt nilroots roots) 1) = Some (roots, 1) ->
+    blen (enc_header (roots_opt nilroots roots) 1) <= w_maxh o ->
+    blen (enc_header (roots_opt nilroots roots) 1) < two63 ->
+    open_new k o nilroots roots [] = Ok s0 ->
+    (Forall (fun op =>
+       match op with
+       | OpPut c d =>
+           cid_parse (fst (c, d)) <> None ->
+           (exists p, cid_ok p /\ fst (c, d) = cid_enc p /\ blen (c_digest p) <= max_digest_alloc) /\
+           blen (fst (c, d)) + blen (snd (c, d)) <= w_maxs o /\ blen (fst (c, d)) + blen (snd (c, d)) < two63
+       | OpPutMany l =>
+           Forall (fun b =>
+             cid_parse (fst b) <> None ->
+             (exists p, cid_ok p /\ fst b = cid_enc p /\ blen (c_digest p) <= max_digest_alloc) /\
+             blen (fst b) + blen (snd b) <= w_maxs o /\ blen (fst b) + blen (snd b) < two63) l
+       | _ => True
+       end) ops /\
+     51 + w_dpad o + w_ipad o + ld_size (blen (enc_header (roots_opt nilroots roots) 1)) + ops_size ops < two64) ->
+    wf_trace (List.length ops) tr ->
+    exists w : list nat,
+      perm_ok (List.length ops) w = true /\
+      rt_ok (hist_of (List.length ops) tr) w = true /\
+      gresults wstate sop out (impl_step hdrdec f) OpRoots s0 ops tr
+      = combine w (gexec mstate sop out (StoreSpec.spec_step f o roots) m_empty
+                         (ops_along sop OpRoots ops w)).
+Proof. exact store_sections_linearizable_wrt_map. Qed.
+Print Assumptions C08_store_sections_linearizable_wrt_map_spec.
+
+(* the same for ANY sequential model of an object, in particular for C20's model of the deferred writer
+   ([Deferred.d_step]; C20_identical / C20_put_result_is_direct relate it to the StorageCar model) *)
+Theorem C08_sections_of_any_model_are_linearizable :
+  forall (St Op Res : Type) (step : St -> Op -> St * Res) (dflt : Op) (s0 : St) (ops : list Op) (tr : list ev),
+    wf_trace (List.length ops) tr ->
+    exists w : list nat,
+      perm_ok (List.length ops) w = true /\
+      rt_ok (hist_of (List.length ops) tr) w = true /\
+      gresults St Op Res step dflt s0 ops tr = combine w (gexec St Op Res step s0 (ops_along Op dflt ops w)).
+Proof. exact (@atomic_sections_linearizable_gen). Qed.
+Print Assumptions C08_sections_of_any_model_are_linearizable.
+
+Theorem C08_deferred_sections_linearizable_wrt_C20_model :
+  forall (c : Deferred.dcfg) (ops : list dop) (tr : list ev),
+    wf_trace (List.length ops) tr ->
+    exists w : list nat,
+      perm_ok (List.length ops) w = true /\
+      rt_ok (hist_of (List.length ops) tr) w = true /\
+      gresults dstate dop dout (d_step c) DClose d_init ops tr
+      = combine w (gexec dstate dop dout (d_step c) d_init (ops_along dop DClose ops w)).
+Proof. exact deferred_sections_linearizable. Qed.
+Print Assumptions C08_deferred_sections_linearizable_wrt_C20_model.
+
+(* Linearizability of the id-level specification the dynamic runs are checked against (RunConc.spec_step:
+   blocks are small ids; what the harness' workloads can observe), with the executable check [lin_check]
+   that the extracted driver evaluates on every observed history.
+   _partial -- the chain from the Go code to "linearizable with respect to the map", link by link:
+     (1) today's source obeys the lock discipline and every operation is one critical section:
+         C08_lock_discipline_holds, C08_every_operation_is_one_critical_section (translator + vm_compute);
+     (2) discipline => sections are isolated (C08_critical_sections_are_isolated) and every micro-step
+         execution of programs with data is an execution of atomically executed sections
+         (C08_micro_steps_reduce_to_atomic_sections): PROVED for one outer RW mutex per object with inner
+         mutexes inside exclusive sections (DeferredCarWriter.lk -> StorageCar.mu), hand-off of a shared
+         section (ReadOnly.AllKeysChan), goroutines started inside an exclusive section that do nothing
+         before they lock or return (ReadWrite.AllKeysChan).  NOT covered by the theorem: hand-off of an
+         EXCLUSIVE section, a hand-off inside a handed-off section, goroutines started outside a section or
+         inside a shared one, goroutines that read never-written fields before their first lock operation,
+         inner mutexes under a SHARED outer section or taken without the outer one (none of these occurs
+         in the four types; a StorageCar shared between a DeferredCarWriter and direct callers would be the
+         last case).  The discipline [pok] of that theorem is on resumptions; that the generated act
+         traces (on which [ok] is checked) are the traces of resumptions satisfying [pok] -- i.e. that the
+         translator's tables describe the Go methods -- is the translator's soundness, trusted;
+     (3) the atomic step of each critical section is Store.v's function for that operation (impl_step), resp.
+         Deferred.d_step: NOT proved -- this is "Store.v models the code", which C04 / C20 sample
+         sequentially and the C08 histories sample concurrently (every observed history is replayed through
+         the id-level specification by lin_check);
+     (4) atomic sections of impl_step => linearizable with respect to the reference map:
+         C08_store_sections_linearizable_wrt_map_spec (uses C04_refines_map);
+         for the deferred writer with respect to C20's model: C08_deferred_sections_linearizable_wrt_C20_model;
+     (5) RunConc.spec_step (ids) is not formally related to StoreSpec.spec_step (CIDs and bytes): it is the
+         projection of the map to what the workloads observe, validated by the same differential runs. *)
 Theorem C08_linearizable_partial :
   forall (store : N) (v1 : bool) (ops : list cop) (tr : list ev),
     wf_trace (List.length ops) tr ->
